@@ -141,11 +141,38 @@ def has_class_cycle(fam) -> bool:
     return any(i in reach(i) for i in range(n))
 
 
+NESTED_OF_ENTRY = {"from_msgpack": "from_dict_msgpack", "from_json": "from_dict_json", "from_toml": "from_dict_toml"}
+
+
+def variant_inherits_method(fam, snap, op) -> bool:
+    """some class of a discriminated hierarchy has no own nested unpacker of the op's format while one of its
+    ancestors has: the dispatcher's fast path then runs the ancestor's code on the variant"""
+    m = re.search(r"\.(from_\w+)\(", op)
+    name = NESTED_OF_ENTRY.get(m.group(1)) if m else None
+    if not name:
+        return False
+    cl = fam["classes"]
+    for c in cl:
+        own = snap.get(c["name"])
+        if not own or c["parent"] is None or name in own["m"]:
+            continue
+        p = c["parent"]
+        while p is not None:
+            if name in snap.get(cl[p]["name"], {"m": {}})["m"]:
+                return True
+            p = cl[p]["parent"]
+    return False
+
+
 def classify(fam, op, got, exp, got_aux, exp_aux, got_snap, exp_snap, src="") -> dict:
     """signature of a difference between the family under test (`got`) and the fresh eager twin (`exp`).
     kind is one of the known-finding kinds only when the precise predicate of that finding holds on the
     side that failed; otherwise 'history-dependence' (= a violation)."""
     sig = {"kind": "history-dependence", "got": got[1] if got[0] == "EXC" else "OK", "exp": exp[1] if exp[0] == "EXC" else "OK"}
+    if "Discriminator(" in src:
+        for side, snap in (("family", got_snap), ("twin", exp_snap)):
+            if variant_inherits_method(fam, snap, op):
+                return {**sig, "kind": "discriminator-variant-runs-inherited-method", "side": side}
     for side, out, aux, snap in (("family", got, got_aux, got_snap), ("twin", exp, exp_aux, exp_snap)):
         other = exp if side == "family" else got
         if out[0] != "EXC" or out == other:
@@ -390,8 +417,11 @@ class Base({base}):
         discriminator = Discriminator(field="kind", include_subtypes=True)
 """]
     parents = ["Base"]
+    fam = {"classes": [{"name": "Base", "parent": None, "fields": [], "kind": "mixin", "mixins": [mix], "dsup": dsup, "generic": 0}]}
     for i in range(nsub):
         par = rng.choice(parents)
+        fam["classes"].append({"name": f"Sub{i}", "parent": parents.index(par), "fields": [], "kind": "mixin", "mixins": [mix],
+                               "dsup": dsup, "generic": 0})
         out.append(f"""
 @dataclass(kw_only=True)
 class Sub{i}({par}):
@@ -433,13 +463,14 @@ class Holder({base}):
             ops.append(f"{cls}.{up}(msgpack.packb({d!r}){', ' + ', '.join(kws) if kws else ''})")
         else:
             ops.append(f"{cls}.{up}({repr(d)!r}, {', '.join(kws + ['decoder=dec_lit'])})")
-    return src, src.replace("lazy_compilation = True", "lazy_compilation = False"), ops, {"mixin": mix, "dsup": dsup}
+    fam["classes"].append({"name": "Holder", "parent": None, "fields": [], "kind": "mixin", "mixins": [mix], "dsup": dsup, "generic": 0})
+    return src, src.replace("lazy_compilation = True", "lazy_compilation = False"), ops, {"mixin": mix, "dsup": dsup, "fam": fam}
 
 
 def oracle_discriminated(ctx: vlib.Ctx, n: int):
     for _ in range(n):
         src, twin_src, ops, info = gen_discriminated(ctx.rng)
-        case = {"fam": {"classes": []}, "src": src, "twin_src": twin_src, "ops": ops}
+        case = {"fam": info["fam"], "src": src, "twin_src": twin_src, "ops": ops}
         res = run_history(case)
         ctx.hist("discriminated hierarchies", info["mixin"] + ("+dialects" if info["dsup"] else ""))
         for k, op, got, exp, sig in res:
